@@ -94,6 +94,8 @@ func (f *Facade) invoiceJSON(hash string) map[string]any {
 	status := "unpaid"
 	if inv.Settled {
 		status = "paid"
+	} else if inv.Canceled {
+		status = "expired" // what Core Lightning reports for an invoice that was not paid in time
 	}
 	f.mu.Lock()
 	label := ""
